@@ -84,6 +84,7 @@ type Backend struct {
 	closed   bool
 	KeepBodies bool
 	live     map[net.Conn]struct{}
+	AbortUploadAfter int64 // >0: read this many body bytes of a proxied request, then RST without answering
 }
 
 func NewBackend(name string) *Backend {
@@ -207,8 +208,19 @@ func (b *Backend) handle(c net.Conn) {
 		if err != nil {
 			return
 		}
-		body, _ := io.ReadAll(req.Body)
 		p := req.URL.EscapedPath()
+		if n := atomic.LoadInt64(&b.AbortUploadAfter); n > 0 && p != "/health" && !strings.HasSuffix(p, "/zz-health") && !strings.HasSuffix(p, "/v1/models") {
+			// consume part of the upload, then reset the connection without answering
+			got, _ := io.CopyN(io.Discard, req.Body, n)
+			b.mu.Lock()
+			b.seen = append(b.seen, &Seen{Method: req.Method, Path: p, RawQuery: req.URL.RawQuery, Host: req.Host, Header: map[string][]string(req.Header),
+				BodyLen: int(got), BodySHA: "partial", CL: req.ContentLength, Seq: atomic.AddInt64(&globalSeq, 1), Backend: b.Name})
+			b.nreq++
+			b.mu.Unlock()
+			rst(c)
+			return
+		}
+		body, _ := io.ReadAll(req.Body)
 		if p == "/health" || strings.HasSuffix(p, "/zz-health") {
 			atomic.AddInt64(&b.healthHits, 1)
 			st := int(atomic.LoadInt32(&b.HealthStatus))
@@ -401,10 +413,21 @@ type EP struct {
 	Type     string
 	Priority int
 	Backend  *Backend
+	Host     string // if set, the endpoint URL uses this host name instead of the backend's 127.0.0.1 (e.g. an unresolvable name)
 	BasePath string // appended to the backend URL
 	Preserve bool
 	Interval time.Duration
 	Timeout  time.Duration
+}
+
+// URL is the endpoint URL as configured.
+func (e EP) URL() string {
+	u := e.Backend.URL()
+	if e.Host != "" {
+		_, port, _ := net.SplitHostPort(e.Backend.Addr())
+		u = "http://" + e.Host + ":" + port
+	}
+	return u + e.BasePath
 }
 
 type Opts struct {
@@ -519,7 +542,7 @@ func start1(o Opts) (*Stack, error) {
 			ty = "openai"
 		}
 		cfg.Discovery.Static.Endpoints = append(cfg.Discovery.Static.Endpoints, config.EndpointConfig{
-			URL: e.Backend.URL() + e.BasePath, Name: e.Name, Type: ty, Priority: &pr,
+			URL: e.URL(), Name: e.Name, Type: ty, Priority: &pr,
 			HealthCheckURL: "/health", ModelURL: "/v1/models", CheckInterval: iv, CheckTimeout: to, PreservePath: e.Preserve,
 		})
 	}
